@@ -26,7 +26,7 @@ theorem param?_notMsg {S : Schema} {ty : String} {c : Container} (h : S.param? t
   exact this.1
 
 theorem layoutWF_of_mem {S : Schema} (hS : layoutWF S = true) {c : Container} (h : c ∈ S) :
-    fieldsWF c.fields 0 = true := by
+    layoutFieldsWF c.fields 0 = true := by
   unfold layoutWF at hS
   exact List.all_eq_true.mp hS c h
 
